@@ -31,7 +31,7 @@ ASSUMPTIONS = [
 ]
 COMPONENTS = {"real": ["dali.sequences.QueryDeviceTypes, QueryGroups, SetGroups", "dali.gear.general command classes and responses"],
               "stub": ["DALI bus and control gear (sim/busim.py models)", "driver (the sequence is stepped directly, EnableDeviceType inserted as every driver does)"]}
-PROBES = ["earlier-calls-in-same-process", "stacked-tridonic", "stacked-hasseb", "stacked-luba", "stacked-sci", "never-ending-stream", "collision", "answer-dropped", "answer-garbled", "dt-list-with-zero", "dt-list-long",
+PROBES = ["read-modify-write-with-the-returned-set", "earlier-calls-in-same-process", "stacked-tridonic", "stacked-hasseb", "stacked-luba", "stacked-sci", "never-ending-stream", "collision", "answer-dropped", "answer-garbled", "dt-list-with-zero", "dt-list-long",
           "setgroups-diff-minimal", "setgroups-full-rewrite", "repeat-stream"]
 
 ALPHABET = [None, "error", 0, 1, 6, 6, 254, 255]
@@ -44,6 +44,9 @@ def gen_plan(seed, tier="quick"):
     if n_dt and r.random() < 0.4:
         dts[0] = 0
         dts = sorted(set(dts))
+    if r.random() < 0.01:
+        # a unit that implements (nearly) every device type there is: 0..253
+        dts = [d for d in range(254) if d != r.choice([None, None, 0, 253, r.randrange(254)])]
     groups = r.choice([0, 0xFFFF, 1, 0x8000, 0x00FF, 0xFF00, 0x0100, 0x0080, r.getrandbits(16), r.getrandbits(16)])
     short = r.randrange(64)
     target = {"short": short, "groups": groups, "dts": dts}
@@ -62,6 +65,10 @@ def gen_plan(seed, tier="quick"):
     if dest == "group":
         plan["dest_group"] = r.randrange(16)
     h = plans.rng_for(seed, PROP + "-history")
+    if seq == "set" and dest in ("short", "int") and h.random() < 0.25:
+        # read - modify - write: the application edits the set QueryGroups handed it and passes that very object on
+        plan["rmw"] = [[h.randrange(16) for _ in range(h.randrange(0, 3))], [h.randrange(16) for _ in range(h.randrange(0, 3))]]
+        plan["fault"] = None
     if h.random() < 0.3:
         # earlier calls of the same sequences in this process, against some other unit
         plan["prelude"] = [[h.choice(["set", "set", "groups", "types"]),
@@ -127,6 +134,21 @@ def run_plan(plan):
         gen = QueryDeviceTypes(dest)
     elif plan["seq"] == "groups":
         gen = QueryGroups(dest)
+    elif plan.get("rmw") and not plan.get("transport"):
+        twin = busim.Gear(short=(t["short"] + 1) % 64, groups=set(target.groups), name="W")
+        if not any(u.short == twin.short for u in units):
+            units.append(twin)
+            bus.units.append(twin)
+            before["W"] = set(twin.groups)
+            twin.groups_before = set(twin.groups)
+        q = busim.run_sequence(QueryGroups(dest), bus, cap=10, log=EventLog())
+        held = q.value if q.status == "return" else set(target.groups)
+        for g_ in plan["rmw"][0]:
+            held.add(g_)
+        for g_ in plan["rmw"][1]:
+            held.discard(g_)
+        want = set(held)
+        gen = SetGroups(dest, held)
     else:
         gen = SetGroups(dest, set(want))
     faults = {plan["fault"][0]: plan["fault"][1]} if plan["fault"] else {}
@@ -218,6 +240,14 @@ def run_plan(plan):
                 probes["setgroups-full-rewrite"] = 1
         elif not disturbed:
             V("valid-state-rejected", "SetGroups raised %r without any fault" % (sr.exc,), site="set")
+    if plan.get("rmw") and not transport and sr.status == "return" and len(same_addr) == 0:
+        probes["read-modify-write-with-the-returned-set"] = 1
+        for u in units:
+            if u.name == "W":
+                q2 = busim.run_sequence(QueryGroups(GearShort(u.short)), bus, cap=10, log=EventLog())
+                if q2.status != "return" or q2.value != u.groups:
+                    V("wrong-groups", "after a read-modify-write on another unit QueryGroups(%d) returned %s, the unit is in %s" % (
+                        u.short, sorted(q2.value) if q2.status == "return" else q2.exc, sorted(u.groups)), site="after-rmw")
     for c in fired:
         probes["answer-dropped" if c[4] == "drop" else "answer-garbled"] = 1
     if collided:
